@@ -579,7 +579,9 @@ class ImageResizePlugin(PrimitiveLeafPlugin):
             ),
         }
         if method == "nearest":
-            resize_kwargs["nearest_mode"] = "round_prefer_floor"
+            # JAX picks floor((i + 0.5) * in / out): on a tie of the half-pixel
+            # coordinate that is the upper neighbour.
+            resize_kwargs["nearest_mode"] = "round_prefer_ceil"
         if method in {"cubic", "cubic_pytorch"}:
             resize_kwargs["cubic_coeff_a"] = (
                 -0.75 if method == "cubic_pytorch" else -0.5
